@@ -10,6 +10,8 @@ import Snmp.Gen.Facts
 import Snmp.Model.Agent
 import Snmp.Model.Walk
 import Snmp.Model.Ops
+import Snmp.Model.Cfg
+import Snmp.Model.Fault
 open Lean Snmp
 
 namespace Driver
@@ -155,7 +157,15 @@ def walkRun (j : Json) : Except String Json := do
   let kind ← j.getObjValAs? String "kind"
   let lenient := (j.getObjValAs? Bool "lenient").toOption.getD false
   let fuel ← getNat j "fuel"
-  let x := Walk.exchangeOf a db pol
+  let x0 := Walk.exchangeOf a db pol
+  let x ← match j.getObjVal? "fault" with
+    | .ok f => do
+      let foids ← (← (← f.getObjVal? "oids").getArr?).toList.mapM oidOfJson
+      let vbs' ← match f.getObjVal? "vbs" with
+        | .ok v => do pure (some (← vbsOfJson v))
+        | .error _ => pure none
+      pure (Fault.withFault x0 foids (← getInt f "status") (← getInt f "index") vbs')
+    | .error _ => pure x0
   let r ← match kind with
     | "getnext" => pure (Walk.walkGetnext x roots lenient fuel)
     | "bulk" => pure (Walk.walkBulk x (← getNat j "size") roots fuel)
@@ -234,6 +244,66 @@ def opsRun (j : Json) : Except String Json := do
       (fun r => Json.mkObj [("scalars", vbsJ r.scalars), ("listing", vbsJ r.listing)]))
   | n => throw s!"bad ops name {n}"
 
+/-! ### cfg.run -/
+def familyOfStr : String → Except String Cfg.Family
+  | "v1" => pure .v1 | "v2c" => pure .v2c | "v3" => pure .v3
+  | s => throw s!"bad family {s}"
+
+def kwValOfJson (j : Json) : Except String Cfg.KwVal := do
+  let a ← j.getArr?
+  let arg (i : Nat) : Json := a[i]?.getD Json.null
+  match (arg 0).getStr? with
+  | .ok "cred" => pure (.cred ⟨← familyOfStr (← (arg 1).getStr?), ← (arg 2).getNat?⟩)
+  | .ok "num" => pure (.num (← (arg 1).getInt?))
+  | .ok "ident" => pure (.ident (← (arg 1).getNat?))
+  | _ => throw "bad kwval"
+
+def kwargsOfJson (j : Json) : Except String Cfg.Kwargs := do
+  let a ← j.getArr?
+  a.toList.mapM fun e => do
+    let p ← e.getArr?
+    pure (← (p[0]?.getD Json.null).getStr?, ← kwValOfJson (p[1]?.getD Json.null))
+
+partial def progOfJson (j : Json) : Except String Cfg.Prog := do
+  let a ← j.getArr?
+  let arg (i : Nat) : Json := a[i]?.getD Json.null
+  let body (x : Json) : Except String (List Cfg.Prog) := do
+    let l ← x.getArr?
+    l.toList.mapM progOfJson
+  match (arg 0).getStr? with
+  | .ok "request" => pure .request
+  | .ok "peek" => pure .peek
+  | .ok "raise" => pure .raise
+  | .ok "configure" => pure (.configure (← kwargsOfJson (arg 1)))
+  | .ok "reconfigure" => pure (.reconfigure (← kwargsOfJson (arg 1)) (← body (arg 2)))
+  | .ok "catch" => pure (.catch (← body (arg 1)))
+  | _ => throw "bad prog"
+
+def optNatJ : Option Nat → Json
+  | some n => toJson n
+  | none => Json.null
+
+def obsToJson (o : Cfg.Obs) : Json :=
+  toJson (#[toJson o.kind, toJson o.timeout, toJson o.retries, toJson o.version, optNatJ o.cred, optNatJ o.context, toJson o.inst] : Array Json)
+
+def cfgRun (j : Json) : Except String Json := do
+  let i ← j.getObjVal? "init"
+  let fam ← familyOfStr (← i.getObjValAs? String "family")
+  let ident ← match Cfg.credMpm fam with
+    | some n => pure n
+    | none => throw "no mpm for the initial credentials"
+  let s0 : Cfg.St :=
+    ⟨⟨⟨fam, ← getNat i "cred"⟩, ← getNat i "context", 0, ← getInt i "timeout", ← getInt i "retries"⟩, ⟨ident, 0⟩, 1, []⟩
+  let l ← (← j.getObjVal? "prog").getArr?
+  let prog ← l.toList.mapM progOfJson
+  let r := Cfg.execList prog s0
+  let err : Json := match r.err with
+    | none => Json.null
+    | some .typeError => "typeError"
+    | some .unknownMpm => "unknownMpm"
+    | some .boom => "boom"
+  pure (Json.mkObj [("obs", toJson (r.obs.map obsToJson)), ("err", err), ("final", obsToJson (Cfg.peek r.state))])
+
 def handle (j : Json) : Except String Json := do
   let op ← j.getObjValAs? String "op"
   match op with
@@ -247,6 +317,7 @@ def handle (j : Json) : Except String Json := do
   | "types.fromBE" => pure (toJson (Types.fromBE (← getNats j "b")))
   | "walk.run" => walkRun j
   | "ops.run" => opsRun j
+  | "cfg.run" => cfgRun j
   | _ => throw s!"bad-op {op}"
 
 end Driver
